@@ -80,7 +80,7 @@ class RandomKaryPartition(Partition):
             )
             new_nodes.append(node)
 
-        parent.update_children(new_nodes)
+        parent.update_children(list(new_nodes))
 
         if newlayer:
             self.node_list.append(new_nodes)
